@@ -109,6 +109,14 @@ def mux_shapes():
                   N("S4", "Source"), N("M", "PMux", ["S1", "S2", "S3", "S4"], rs_list=True, only=("rs",)), N("L", "RLoad", "M"))
     c["mux-below-regs"] = S(N("S1", "Source", pol="nonneg"), N("C", "Converter", "S1"), N("S2", "Source"), N("W", "PSwitch", "S2"),
                             N("M", "PMux", ["C", "W"], rs_list=True), N("L", "PLoad", "M"), N("L0", "ILoad", "C"))
+    # a lower-priority input that has other children, some added BEFORE the mux (successor order is reverse insertion order)
+    c["mux-lowprio-sibling"] = S(N("S1", "Source", pol="nonneg"), N("S2", "Source"), N("L2", "ILoad", "S2"),
+                                 N("M", "PMux", ["S1", "S2"], rs_list=True), N("L", "PLoad", "M"), N("L3", "RLoad", "S2"))
+    # the conducting input sits two levels below its source; the other source is emitted just before the mux
+    c["mux-deep-input-a"] = S(N("S1", "Source", pol="nonneg"), N("S2", "Source"), N("C", "Converter", "S2"), N("D", "RectD", "C"),
+                              N("M", "PMux", ["S1", "D"], rs_list=True), N("L", "ILoad", "M"))
+    c["mux-deep-input-b"] = S(N("S2", "Source"), N("C", "Converter", "S2"), N("D", "RLoss", "C"), N("S1", "Source", pol="nonneg"),
+                              N("M", "PMux", ["D", "S1"], rs_list=True), N("L", "PLoad", "M"), N("L1", "ILoad", "S1"))
     c["mux-shared-src-load"] = S(N("S1", "Source", pol="nonneg"), N("S2", "Source"), N("L1", "ILoad", "S1"),
                                  N("M", "PMux", ["S1", "S2"], rs_list=True), N("G", "LinReg", "M"), N("L", "RLoad", "G"))
     return c
@@ -130,7 +138,7 @@ def multi_source_shapes():
     c["fan-two-sources"] = S(N("S1", "Source"), N("S2", "Source"), N("A1", "PSwitch", "S1"), N("A2", "PSwitch", "S2"),
                              N("L1", "PLoad", "A1"), N("L2", "PLoad", "A2"), N("L3", "ILoad", "S1"), N("L4", "ILoad", "S2"))
     for k, v in mux_shapes().items():
-        if k in ("mux2", "mux-below-regs", "mux-shared-src-load"):
+        if k in ("mux2", "mux-below-regs", "mux-shared-src-load", "mux-lowprio-sibling", "mux-deep-input-a", "mux-deep-input-b"):
             c[k] = v
     return c
 
